@@ -104,7 +104,10 @@ class AsyncContext(object):
             self.pause()
         else:
             leave_context(self, self._active_task)
-            self.pause()
+            # When the block is left because a suspended task's generator is being closed, the
+            # scheduler has already paused the task's contexts: don't pause this one twice.
+            if self._active_task is None or self._active_task._contexts_active:
+                self.pause()
             del self._active_task
 
     def resume(self):
